@@ -88,7 +88,10 @@ def pre_dir_inserted(f, s):
     recv = render(ta.term(ins[0].args[0]))
     tb = TermBuilder(s.body)
     t = render(tb.term(s.call.args[0]))
-    ok = a == d and recv == "self.directories" and "std::iter::Iterator::position(std::collections::BTreeSet::<T, A>::iter(self.directories)" in t
+    # the lookup is a search in self.directories - by position(), or through a position map built from its enumeration
+    lookup = ("std::iter::Iterator::position(std::collections::BTreeSet::<T, A>::iter(self.directories)" in t or
+              (re.search(r"(BTreeMap|HashMap)::<K, V(, [AS])?>::get\(", t) is not None and "std::iter::Iterator::enumerate(" in t and "self.directories" in t and ".dir" in t))
+    ok = a == d and recv == "self.directories" and lookup
     return ok, "add_data inserts entry.dir into self.directories; the builder is consumed by build()"
 
 
